@@ -536,7 +536,8 @@ impl CooperativeUtils {
                     } => unreachable!(),
                 }
             })
-            .buffer_unordered(max_concurrent)
+            // `buffered`, not `buffer_unordered`: result i belongs to operation i, whatever finishes first
+            .buffered(max_concurrent)
             .collect::<Vec<_>>()
             .await;
 
